@@ -32,6 +32,19 @@ impl<T> Vec2D<T> {
     }
 }
 
+#[cfg(feature = "verif_hooks")]
+impl<T: std::hash::Hash> Vec2D<T> {
+    /// Verification hook: feed the complete contents into `h`.
+    pub(crate) fn verif_hash_state<H: std::hash::Hasher>(&self, h: &mut H) {
+        use std::hash::Hash;
+        self.cols.hash(h);
+        self.data.len().hash(h);
+        for x in self.data.iter() {
+            x.hash(h);
+        }
+    }
+}
+
 impl<T> Index<usize> for Vec2D<T> {
     type Output = [T];
 
